@@ -2,6 +2,10 @@ CONSTANT MinN = 1
 CONSTANT MaxN = 3
 CONSTANT MaxL = 3
 CONSTANT Palette = {1, 2, 3}
+CONSTANT Fams = {"light_base", "light_fancy", "light_mod", "trust_base", "trust_mod", "trust_fancy", "light_random", "trust_random"}
+CONSTANT RMin = 8
+CONSTANT RMax = 10
+CONSTANT Reps = 50
 INIT Init
 NEXT GenNext
 CHECK_DEADLOCK FALSE
